@@ -51,7 +51,7 @@ Definition IMPORT_DEPTH : nat := 8.
 Definition check_load (c : load_case) : bool :=
   let '(fs, gkeep, main, expected) := c in
   match load_and_validate IMPORT_DEPTH fs gkeep main, expected with
-  | Ok b, Some (ds, ig) => all2 defn_eqb (b_defs b) ds && list_eqb (b_ignore b) ig
+  | Ok b, Some (ds, ig) => all2 defn_eqb (export b) ds && list_eqb (b_ignore b) ig
   | Err EFuel, _ => false
   | Err _, None => true
   | _, _ => false
